@@ -34,6 +34,11 @@ type Sim struct {
 	timeout   time.Duration
 }
 
+type dealSeen struct {
+	claim      int
+	consistent bool
+}
+
 type SealedInfo struct {
 	Rcpt       int
 	Claim      int
@@ -52,7 +57,7 @@ type SimMember struct {
 	resps    *dkg.Responses
 	share    *dkg.DistKeyShare
 	Approved []int // dealers whose deal this member answered with an approval
-	Answered []int // dealers whose deal produced any response or error in the deals stage
+	dealLog  []dealSeen
 }
 
 func NewSim(seed uint64, n int) *Sim {
@@ -286,11 +291,17 @@ func (s *Sim) DeliverDeal(j, i int) bool {
 	if !ok {
 		return false
 	}
-	s.InjectDeal(i, CloneDeal(d))
+	s.InjectDealInfo(i, CloneDeal(d), true)
 	return true
 }
 
 func (s *Sim) InjectDeal(i int, d *dkg.Deal) {
+	s.InjectDealInfo(i, d, false)
+}
+
+// InjectDealInfo delivers a deal and records, for the oracle, whether the harness built it consistent.
+func (s *Sim) InjectDealInfo(i int, d *dkg.Deal, consistent bool) {
+	s.M[i].dealLog = append(s.M[i].dealLog, dealSeen{int(d.Index), consistent})
 	s.M[i].dl.PeerMsg(s.Sid, d)
 	s.advance(s.M[i])
 }
@@ -369,8 +380,10 @@ func (s *Sim) AdvDeal(claim, sealer, rcpt int, variant string) *dkg.Deal {
 	var deal *vss.Deal
 	switch {
 	case variant == "junk":
+		s.Sealed = append(s.Sealed, SealedInfo{Rcpt: rcpt, Claim: claim})
 		return &dkg.Deal{SessionId: s.Sid, Index: uint32(claim), Deal: &vss.EncryptedDeal{DHKey: s.rng.Bytes(129), Signature: s.rng.Bytes(161), Nonce: make([]byte, 12), Cipher: s.rng.Bytes(200)}}
 	case variant == "nil":
+		s.Sealed = append(s.Sealed, SealedInfo{Rcpt: rcpt, Claim: claim})
 		return &dkg.Deal{SessionId: s.Sid, Index: uint32(claim)}
 	case strings.HasPrefix(variant, "good"), strings.HasPrefix(variant, "bad"), strings.HasPrefix(variant, "nilshare"), strings.HasPrefix(variant, "nilv"), strings.HasPrefix(variant, "sidraw"):
 		p := 1
@@ -557,4 +570,18 @@ func (s *Sim) Coeffs(k int) []*big.Int {
 		out = append(out, Big(c))
 	}
 	return out
+}
+
+// ApprovedBy lists the dealers member k answered with an approval (empty until its deals stage finished).
+func (s *Sim) ApprovedBy(k int) []int { return s.M[k].Approved }
+
+// FirstDealConsistent: the first deal that reached member k under dealer index j (the one the
+// session layer keeps) was built consistent by the harness / is a genuine deal for k.
+func (s *Sim) FirstDealConsistent(k, j int) (consistent, known bool) {
+	for _, d := range s.M[k].dealLog {
+		if d.claim == j {
+			return d.consistent, true
+		}
+	}
+	return false, false
 }
